@@ -240,8 +240,29 @@ def c182(ctx):
         no = ctx.calls(R, f, r"Condvar::notify_(one|all)$")
         held_at(ctx, R, f, no, "head notification", lock="WaitList.state")
         for pt in no:
-            g = [x for x in K.compare_guards(f, pt) if x["op"] == "Lt" and x["holds"]]
+            def ht(x):
+                """the guard says head < tail on this edge (written either way round)"""
+                na, nb = K.src_names(f, x["a"]), K.src_names(f, x["b"])
+                if ".head" in na and ".tail" in nb:
+                    return (x["op"], x["holds"]) in (("Lt", True), ("Ge", False))
+                if ".tail" in na and ".head" in nb:
+                    return (x["op"], x["holds"]) in (("Gt", True), ("Le", False))
+                return False
+            cg = K.compare_guards(f, pt)
+            g = [x for x in cg if ht(x)]
             ctx.check(R, f, "head-exists", bool(g), "only when head < tail", "notify_head indexes the head without checking the list is non-empty", pt=pt)
+            # and whenever a head exists: nothing else decides whether the head is signalled.  A head re-checks a predicate of its caller's
+            # (do_work: doing_work || !is_head) and goes back to sleep, so a second notification for the same head is not redundant.
+            extra = []
+            for bb, lab, srcs in K.guards(f, pt):
+                bins = [x for x in srcs if x["k"] == "bin" and x["op"] in K.CMP_OPS]
+                if bins and all(any(y["bb"] == bb and ht(y) for y in cg) for _x in bins):
+                    continue
+                if any(x["k"] in ("bin", "call", "field") for x in srcs):
+                    extra.append(bb)
+            ctx.check(R, f, "head-always-signalled", not extra, "every notify_head with a head present signals it",
+                      "notify_head skips the signal under a further condition: a head that was woken, found its caller's predicate still false and slept again "
+                      "is never woken by the call that makes the predicate true", pt=pt)
             iw = [s for s in P.origins(f, P.term_at(f, pt)["args"][0]) if s["k"] == "call" and s["callee"].endswith("WaitList::index_waitlist")]
             ctx.check(R, f, "notifies-head", bool(iw) and all(".head" in K.src_names(f, s["t"]["args"][1]) for s in iw), "the waiter notified is the one at state.head",
                       "notify_head does not notify the waiter at state.head", pt=pt)
